@@ -188,14 +188,14 @@ pub fn sdes_chunk<S: Src, const N: usize>(s: &mut S) {
 }
 
 common::register! {
-    q_app = app::<_, 64> => 2,
-    q_bye = bye::<_, 64> => 2,
-    q_rr = rr::<_, 64> => 2,
-    q_sr = sr::<_, 64> => 2,
-    q_tfb = tfb::<_, 64> => 2,
-    q_pfb = pfb::<_, 64> => 2,
+    q_app = app::<_, 300> => 2,
+    q_bye = bye::<_, 300> => 2,
+    q_rr = rr::<_, 300> => 2,
+    q_sr = sr::<_, 300> => 2,
+    q_tfb = tfb::<_, 300> => 2,
+    q_pfb = pfb::<_, 300> => 2,
     q_sdes = sdes::<_, 16> => 2,
-    q_unknown = unknown::<_, 64> => 2,
+    q_unknown = unknown::<_, 300> => 2,
     q_generic = generic::<_, 64, false> => 2,
     q_generic_sdes = generic::<_, 12, true> => 2,
     q_report_block = report_block => 2,
@@ -203,14 +203,14 @@ common::register! {
     q_fci = fci => 2,
     q_sdes_item = sdes_item => 2,
     q_sdes_chunk = sdes_chunk::<_, 16> => 2,
-    t_app = app::<_, 256> => 2,
-    t_bye = bye::<_, 256> => 2,
-    t_rr = rr::<_, 256> => 2,
-    t_sr = sr::<_, 256> => 2,
-    t_tfb = tfb::<_, 256> => 2,
-    t_pfb = pfb::<_, 256> => 2,
+    t_app = app::<_, 1100> => 2,
+    t_bye = bye::<_, 1100> => 2,
+    t_rr = rr::<_, 1100> => 2,
+    t_sr = sr::<_, 1100> => 2,
+    t_tfb = tfb::<_, 1100> => 2,
+    t_pfb = pfb::<_, 1100> => 2,
     t_sdes = sdes::<_, 24> => 2,
-    t_unknown = unknown::<_, 256> => 2,
+    t_unknown = unknown::<_, 1100> => 2,
     t_generic = generic::<_, 256, false> => 2,
     t_generic_sdes = generic::<_, 16, true> => 2,
     t_compound = compound::<_, 128> => 34,
